@@ -408,6 +408,8 @@ def methods_of(obj):
 def call_plans(obj, ctx, mname, pairs=True):
     """All argument dicts for one method: singles and (optionally) pairs over boundary-typed parameters."""
     f = getattr(obj, mname)
+    if mname in ("set_columns", "append_columns") and hasattr(obj, "column_names"):
+        return column_plans(obj)
     try:
         sig = inspect.signature(f)
     except (TypeError, ValueError):
@@ -499,6 +501,35 @@ def module_plans():
         for fn, key in (("pack_bytes", "data"), ("pack_strings", "strings"), ("pack_arrays", "list_of_lists")):
             plans.append((fn, {key: data}))
     return plans
+
+
+def column_plans(table):
+    """Keyword sets for set_columns / append_columns: the table's own columns with one column perturbed."""
+    import numpy as np
+
+    base = {c: getattr(table, c).copy() for c in table.column_names}
+    plans = [dict(base)]
+    for c, arr in base.items():
+        variants = [arr[:0], np.concatenate([arr, arr[:1]]) if len(arr) else np.zeros(1, dtype=arr.dtype), None, "x",
+                    arr.astype(np.float64) if arr.dtype != np.float64 else arr.astype(np.int8)]
+        if c.endswith("_offset") and len(arr) >= 2:
+            a = arr.copy(); a[-1] += 5
+            b = arr.copy(); b[0] = 3
+            d = arr[::-1].copy()
+            e = arr.copy(); e[1] = 2 ** 62
+            variants += [a, b, d, e]
+        if arr.dtype.kind == "i" and arr.dtype.itemsize >= 4 and len(arr):
+            a = arr.copy(); a[0] = -2
+            b = arr.copy(); b[-1] = HUGE
+            variants += [a, b]
+        for v in variants:
+            d = dict(base)
+            if v is None:
+                d.pop(c)
+            else:
+                d[c] = v
+            plans.append(d)
+    return [((), d) for d in plans]
 
 
 def resolve(args, obj, objname):
